@@ -501,10 +501,11 @@ const (
 	modePopulated
 	modeMaxima
 	modeRandom
+	modeSparse
 )
 
 func (m genMode) String() string {
-	return [...]string{"empty", "zero", "populated", "maxima", "random"}[m]
+	return [...]string{"empty", "zero", "populated", "maxima", "random", "sparse"}[m]
 }
 
 func customType(f protoreflect.FieldDescriptor) string {
@@ -823,6 +824,26 @@ func apiRoundTrips(run *ev.Run, c int) {
 				continue
 			}
 			apiOneRoundTrip(run, name, mode, pt, b0)
+		}
+		// sparse values: a fully populated message cut off after its k-th field (so that every field is once the last thing
+		// in the buffer), and the k-th field alone
+		fields := md.Fields()
+		for k := 0; k < fields.Len(); k++ {
+			for _, only := range []bool{false, true} {
+				x := genMessage(rng, md, modePopulated, 2)
+				for j := 0; j < fields.Len(); j++ {
+					fj := fields.Get(j)
+					if (only && fj.Number() != fields.Get(k).Number()) || (!only && fj.Number() > fields.Get(k).Number()) {
+						x.Clear(fj)
+					}
+				}
+				b0, err := proto.MarshalOptions{Deterministic: true}.Marshal(x)
+				if err != nil {
+					continue
+				}
+				run.Count("sparse-values", 1)
+				apiOneRoundTrip(run, name, modeSparse, pt, b0)
+			}
 		}
 	}
 	run.Count("message-types-round-tripped", int64(tested))
